@@ -57,8 +57,8 @@ at 10 resp. 20 of the 1024 widths only (c10-5/6) - the thorough tier now sweeps 
 already generator patterns).  (vi) Since the translators of section 4.5 were merged, a change to a translated function ALSO breaks
 a tie lemma (or stops the translator), whatever the value pattern needed to expose it: re-running the seeded changes shows both a
 broken proof obligation and a concrete failing input in the report; the sub-agents' own mutation tables (tools/*_TRANSLATOR.md, about
-400 behaviour-changing edits in all) record which lemma each edit breaks.  After the last translator was merged, 54 of the 92 changes were re-run on the final tree (all detected again; 41 of those reports
-also name the tie lemma or the translator message that breaks).  What remains tied by sampling alone: derived `Hash`, the float branches of the num-traits
+400 behaviour-changing edits in all) record which lemma each edit breaks.  After the last translator was merged, 54 of the 92 changes were re-run on the final tree (69 check runs, all detected again with a concrete
+input; of the 62 reports written after the driver started recording it, 38 also name the tie lemma or the translator message that breaks).  What remains tied by sampling alone: derived `Hash`, the float branches of the num-traits
 conversions, a few trait wrappers (`PartialOrd`, `FromStr`), and the modelled primitives of the trusted base.
 """ % (n_total, n_quick, n_thorough, n_total - n_quick - n_thorough, "\n".join(rows))
 p = os.path.join(ROOT, "DESIGN.md")
